@@ -1,8 +1,8 @@
 (* C16 property theorems: statements only, each closed by [exact]. *)
 From Coq Require Import NArith ZArith List Bool.
 From Coq.Strings Require Import Byte.
-From LV Require Import Lib.Bytes Model.C16_Env Model.C16_Wire Model.C16_Url Model.C16_All Model.C16_Attrs
-  Proofs.C16_Env Proofs.C16_Wire Proofs.C16_Url Proofs.C16_All Proofs.C16_Attrs.
+From LV Require Import Lib.Bytes Wire.Push Wire.Script Model.C16_Env Model.C16_Wire Model.C16_Url Model.C16_All Model.C16_Attrs
+  Model.C16_Embed Proofs.C16_Env Proofs.C16_Wire Proofs.C16_Url Proofs.C16_All Proofs.C16_Attrs Proofs.C16_Embed.
 Import ListNotations.
 
 (* ================= (a) the signature envelope (base.py Signable, purchase.py) ================= *)
@@ -124,6 +124,52 @@ Theorem C16_drop_field_spec : forall (k : N) (fs : list field) (f : field),
 Proof. exact drop_field_spec. Qed.
 Print Assumptions C16_drop_field_spec.
 
+(* ================= (e) the stored form: an object inside an output script ================= *)
+
+(* every object of every size below 2^32 bytes (76, 256 and 65536 included), in a claim_name / update_claim /
+   support / OP_RETURN output with any name, claim id and pubkey hash: the generated script, parsed again
+   without a hint, yields exactly the object's bytes *)
+Theorem C16_embed_extract : forall (c : carrier) (name cid pkh payload : bytes),
+  fits name -> fits cid -> fits pkh -> fits payload ->
+  exists s, embed c name cid pkh payload = Some s /\ extract_payload s = Some payload.
+Proof. exact embed_extract. Qed.
+Print Assumptions C16_embed_extract.
+
+(* fields -> to_bytes -> output script -> parse -> from_bytes -> the same fields and signature *)
+Theorem C16_embedded_object_roundtrip : forall (sch : schema) (d : nat) (m : N) (c : carrier)
+    (name cid pkh : bytes) (sig : option (bytes * bytes)) (fs : list tfield),
+  fits name -> fits cid -> fits pkh -> fits (encode_all sig fs) ->
+  sig_wf sig -> tfields_ok sch m fs = true -> (fdepth fs <= d)%nat ->
+  exists s, embed c name cid pkh (encode_all sig fs) = Some s /\
+            match extract_payload s with
+            | Some p => decode_all sch d m p = (EnvOk (mk_env sig (ser_tree fs)), WOk fs)
+            | None => False
+            end.
+Proof. exact embedded_object_roundtrip. Qed.
+Print Assumptions C16_embedded_object_roundtrip.
+
+(* Stream.update: a new file whose type is not image/video/audio leaves no media info behind; an explicitly
+   given width / duration (0 included) is what is stored; nothing given keeps or drops the sub-message with the kind *)
+Theorem C16_media_step_non_media : forall (old : mstate) (w h d : option N), media_step old None w h d = None.
+Proof. exact media_step_non_media. Qed.
+Print Assumptions C16_media_step_non_media.
+
+Theorem C16_media_step_sets_width : forall (old : mstate) (k w : N) (h d : option N), has_dims k = true ->
+  exists hh dd, media_step old (Some k) (Some w) h d = Some (k, (w, hh, dd)).
+Proof. exact media_step_sets_width. Qed.
+Print Assumptions C16_media_step_sets_width.
+
+Theorem C16_media_step_sets_duration : forall (old : mstate) (k : N) (w h : option N) (d : N), has_duration k = true ->
+  exists ww hh, media_step old (Some k) w h (Some d) = Some (k, (ww, hh, d)).
+Proof. exact media_step_sets_duration. Qed.
+Print Assumptions C16_media_step_sets_duration.
+
+Theorem C16_media_step_switch : forall (k k' : N) (vals : mvals), k <> k' ->
+  media_step (Some (k', vals)) (Some k) None None None = None /\
+  media_step (Some (k, vals)) (Some k) None None None = Some (k, vals).
+Proof. exact (fun k k' vals H => conj (media_step_switch k k' vals H) (media_step_keep k vals)). Qed.
+Print Assumptions C16_media_step_switch.
+
 (* ================= (c) URLs ================= *)
 
 (* every well-formed URL value prints to a string that parses back to exactly that value *)
@@ -243,4 +289,17 @@ Proof. vm_compute. reflexivity. Qed.
 Example C16_ex_unsigned_payload :
   v1_unsigned_payload (ser_fields [(1, WVarint 1); (3, WLen [x61]); (5, WLen [x08; x01])]) =
   WOk (ser_fields [(1, WVarint 1); (3, WLen [x61])]).
+Proof. vm_compute. reflexivity. Qed.
+(* a 76-byte object in a claim_name output: PUSHDATA1 is used and the bytes come back *)
+Example C16_ex_embed_76 :
+  match embed CarrierClaimName [x6e] [] (repeat x01 20) (repeat x07 76) with
+  | Some s => (nth 3 s x00, extract_payload s)
+  | None => (x00, None)
+  end = (x4c, Some (repeat x07 76)).
+Proof. vm_compute. reflexivity. Qed.
+Example C16_ex_media_step :
+  (media_step (Some (1, (1920, 1080, 3600))) None None None None,
+   media_step (Some (1, (1920, 1080, 3600))) (Some 1) (Some 0) None None,
+   media_step (Some (1, (1920, 1080, 3600))) (Some 0) None (Some 4) None) =
+  (None, Some (1, (0, 1080, 3600)), Some (0, (0, 4, 0))).
 Proof. vm_compute. reflexivity. Qed.
